@@ -853,6 +853,8 @@ class ExtensionsProperty(DictionaryProperty):
                     _validate_id(
                         key, self.spec_version, 'extension-definition--',
                     )
+                    # (what holds for all STIX content can still be checked)
+                    _check_no_null_or_empty_list(subvalue)
                 elif allow_custom:
                     has_custom = True
                 else:
